@@ -135,7 +135,7 @@ package exec
 // ---------- exec/axisselectors.go ----------
 
 //@ func unique(s) (r)
-//@   property C03 C01 C13 C15
+//@   property C03 C01 C13 C15 C18
 //@   uses nodeset
 //@   requires nodes(s)
 //@   requires asc(s) || desc(s)                                              @sorted
@@ -211,7 +211,7 @@ package exec
 //@   ensures forall n Cursor :: mem(a, n) == old(mem(a, n))
 
 //@ func cleanupForwardAxis(x) (r)
-//@   property C03 C01 C13
+//@   property C03 C01 C13 C18
 //@   uses nodeset
 //@   requires nodes(x)
 //@   modifies arr(x)
@@ -221,7 +221,7 @@ package exec
 //@   ensures len(x) == 0 ==> r == x
 
 //@ func cleanupBackwardAxis(x) (r)
-//@   property C03 C01 C13
+//@   property C03 C01 C13 C18
 //@   uses nodeset
 //@   requires nodes(x)
 //@   modifies arr(x)
@@ -231,7 +231,7 @@ package exec
 //@   ensures len(x) == 0 ==> r == x
 
 //@ func selectChild(nodeSet) (r)
-//@   property C01 C03 C13 C15
+//@   property C01 C03 C13 C15 C18
 //@   uses axes selseq
 //@   requires nodes(nodeSet)
 //@   ensures isVSet(r) && nodes(vset(r)) && sasc(vset(r))                                                          @ascending
@@ -248,13 +248,13 @@ package exec
 //@     decreases len(nodeSet) - #k
 
 //@ func isAttributeOrNamespace(cursor) (r)
-//@   property C01 C15
+//@   property C01 C15 C18
 //@   uses axes nodekinds
 //@   requires cursor != nil
 //@   ensures r == !treeNode(cursor)
 
 //@ func selectAttributes(nodeSet) (r)
-//@   property C01 C03 C13 C15
+//@   property C01 C03 C13 C15 C18
 //@   uses axes selseq
 //@   requires nodes(nodeSet)
 //@   ensures isVSet(r) && nodes(vset(r)) && sasc(vset(r))                                                          @ascending
@@ -271,7 +271,7 @@ package exec
 //@     decreases len(nodeSet) - #k
 
 //@ func selectNamespace(nodeSet) (r)
-//@   property C01 C03 C13 C15
+//@   property C01 C03 C13 C15 C18
 //@   uses axes selseq
 //@   requires nodes(nodeSet)
 //@   ensures isVSet(r) && nodes(vset(r)) && sasc(vset(r))                                                          @ascending
@@ -288,7 +288,7 @@ package exec
 //@     decreases len(nodeSet) - #k
 
 //@ func selectParent(nodeSet) (r)
-//@   property C01 C03 C13 C15
+//@   property C01 C03 C13 C15 C18
 //@   uses axes selseq
 //@   requires nodes(nodeSet)
 //@   ensures isVSet(r) && nodes(vset(r)) && sasc(vset(r))                                                          @ascending
@@ -305,7 +305,7 @@ package exec
 //@     decreases len(nodeSet) - #k
 
 //@ func appendAncestors(cursor, result) (r)
-//@   property C01 C03 C13 C15
+//@   property C01 C03 C13 C15 C18
 //@   uses axes treelemmas
 //@   requires cursor != nil && nodes(result) && !treeArr(arr(result))
 //@   modifies arr(result)
@@ -315,7 +315,7 @@ package exec
 //@   ensures forall n Cursor :: old(mem(result, n)) || isAncOrSelf(cursor, n) ==> mem(r, n)          @all-ancestors
 
 //@ func selectAncestor(nodeSet) (r)
-//@   property C01 C03 C13 C15
+//@   property C01 C03 C13 C15 C18
 //@   uses axes treelemmas selseq
 //@   requires nodes(nodeSet)
 //@   ensures isVSet(r) && nodes(vset(r)) && sdesc(vset(r))                                                         @descending
@@ -332,7 +332,7 @@ package exec
 //@     decreases len(nodeSet) - #k
 
 //@ func selectAncestorOrSelf(nodeSet) (r)
-//@   property C01 C03 C13 C15
+//@   property C01 C03 C13 C15 C18
 //@   uses axes treelemmas selseq
 //@   requires nodes(nodeSet)
 //@   ensures isVSet(r) && nodes(vset(r)) && sdesc(vset(r))                                                         @descending
@@ -349,7 +349,7 @@ package exec
 //@     decreases len(nodeSet) - #k
 
 //@ func appendDescendant(cursor, result0) (r)
-//@   property C01 C03 C13 C15
+//@   property C01 C03 C13 C15 C18
 //@   uses axes treelemmas
 //@   requires cursor != nil && nodes(result0) && !treeArr(arr(result0))
 //@   modifies arr(result0)
@@ -365,7 +365,7 @@ package exec
 //@     decreases nch(cursor) - #k
 
 //@ func selectDescendant(nodeSet) (r)
-//@   property C01 C03 C13 C15
+//@   property C01 C03 C13 C15 C18
 //@   uses axes treelemmas selseq
 //@   requires nodes(nodeSet)
 //@   ensures isVSet(r) && nodes(vset(r)) && sasc(vset(r))                                                          @ascending
@@ -382,7 +382,7 @@ package exec
 //@     decreases len(nodeSet) - #k
 
 //@ func selectDescendantOrSelf(nodeSet) (r)
-//@   property C01 C03 C13 C15
+//@   property C01 C03 C13 C15 C18
 //@   uses axes treelemmas selseq
 //@   requires nodes(nodeSet)
 //@   ensures isVSet(r) && nodes(vset(r)) && sasc(vset(r))                                                          @ascending
@@ -399,7 +399,7 @@ package exec
 //@     decreases len(nodeSet) - #k
 
 //@ func appendFollowingSibling(cursor, result) (r)
-//@   property C01 C03 C13 C15
+//@   property C01 C03 C13 C15 C18
 //@   uses axes treelemmas
 //@   requires cursor != nil && nodes(result) && !treeArr(arr(result))
 //@   modifies arr(result)
@@ -413,7 +413,7 @@ package exec
 //@     decreases nch(parent(cursor)) - #k
 
 //@ func selectFollowingSibling(nodeSet) (r)
-//@   property C01 C03 C13 C15
+//@   property C01 C03 C13 C15 C18
 //@   uses axes treelemmas selseq
 //@   requires nodes(nodeSet)
 //@   ensures isVSet(r) && nodes(vset(r)) && sasc(vset(r))                                                          @ascending
@@ -430,7 +430,7 @@ package exec
 //@     decreases len(nodeSet) - #k
 
 //@ func appendPrecedingSibling(cursor, result) (r)
-//@   property C01 C03 C13 C15
+//@   property C01 C03 C13 C15 C18
 //@   uses axes treelemmas
 //@   requires cursor != nil && nodes(result) && !treeArr(arr(result))
 //@   modifies arr(result)
@@ -444,7 +444,7 @@ package exec
 //@     decreases i + 1
 
 //@ func selectPrecedingSibling(nodeSet) (r)
-//@   property C01 C03 C13 C15
+//@   property C01 C03 C13 C15 C18
 //@   uses axes treelemmas selseq
 //@   requires nodes(nodeSet)
 //@   ensures isVSet(r) && nodes(vset(r)) && sdesc(vset(r))                                                         @descending
@@ -461,7 +461,7 @@ package exec
 //@     decreases len(nodeSet) - #k
 
 //@ func appendFollowing(cursor, result0) (r)
-//@   property C01 C03 C13 C15
+//@   property C01 C03 C13 C15 C18
 //@   uses axes treelemmas
 //@   requires cursor != nil && nodes(result0) && !treeArr(arr(result0))
 //@   modifies arr(result0)
@@ -479,7 +479,7 @@ package exec
 //@     decreases nch(parent(cursor)) - #k
 
 //@ func selectFollowing(nodeSet) (r)
-//@   property C01 C03 C13 C15
+//@   property C01 C03 C13 C15 C18
 //@   uses axes treelemmas selseq
 //@   requires nodes(nodeSet)
 //@   ensures isVSet(r) && nodes(vset(r)) && sasc(vset(r))                                                          @ascending
@@ -496,7 +496,7 @@ package exec
 //@     decreases len(nodeSet) - #k
 
 //@ func appendPreceding(cursor, result0) (r)
-//@   property C01 C03 C13 C15
+//@   property C01 C03 C13 C15 C18
 //@   uses axes treelemmas
 //@   requires cursor != nil && nodes(result0) && !treeArr(arr(result0))
 //@   modifies arr(result0)
@@ -514,7 +514,7 @@ package exec
 //@     decreases i + 1
 
 //@ func selectPreceding(nodeSet) (r)
-//@   property C01 C03 C13 C15
+//@   property C01 C03 C13 C15 C18
 //@   uses axes treelemmas selseq
 //@   requires nodes(nodeSet)
 //@   ensures isVSet(r) && nodes(vset(r)) && sdesc(vset(r))                                                         @descending
@@ -1267,7 +1267,7 @@ package exec
 //@   ensures $HPOSTV$                                                         @value-is-Sem
 
 //@ func execAxisName(context, expr) (err)
-//@   property C01 C03 C13 C15
+//@   property C01 C03 C13 C15 C18
 //@   uses sem treelemmas
 //@   requires $HPRE$ && nt($B$) == NT_AxisName
 //@   lemma isASet(absv(context.result)) ==> qnodes(aset(absv(context.result)))      @entry-nodes
